@@ -23,12 +23,16 @@ package golang
 //@   ensures first-difference: a != "" && b != "" && shortIds(strings.Split(a, ".")) && shortIds(strings.Split(b, ".")) ==> (forall k int :: 0 <= k && k < len(strings.Split(a, ".")) && k < len(strings.Split(b, ".")) && (forall j int :: 0 <= j && j < k ==> identCmp(strings.Split(a, ".")[j], strings.Split(b, ".")[j]) == 0) && identCmp(strings.Split(a, ".")[k], strings.Split(b, ".")[k]) != 0 ==> result == identCmp(strings.Split(a, ".")[k], strings.Split(b, ".")[k]))   [C08]   // known finding: pre-releases are compared as plain strings
 //@   ensures longer-wins: a != "" && b != "" && shortIds(strings.Split(a, ".")) && shortIds(strings.Split(b, ".")) && (forall j int :: 0 <= j && j < len(strings.Split(a, ".")) && j < len(strings.Split(b, ".")) ==> identCmp(strings.Split(a, ".")[j], strings.Split(b, ".")[j]) == 0) ==> result == (len(strings.Split(a, ".")) < len(strings.Split(b, ".")) ? -1 : (len(strings.Split(a, ".")) > len(strings.Split(b, ".")) ? 1 : 0))   [C08]   // known finding (same cause)
 
+// the pre-release part of the SemVer spelling: the stored one, or for a pseudo-version the text between the first '-' and '+'
+//@ func (*Version).semverPrerelease
+//@   ensures tagged: v.pseudo == nil ==> result == v.prerelease   [C03 C08]
+
 //@ func (*Version).Compare
 //@   comparator v ~ other                                 [C01]
 //@   ensures major: v.major != other.major ==> result == (v.major < other.major ? -1 : 1)                                             [C03 C08]
 //@   ensures minor: v.major == other.major && v.minor != other.minor ==> result == (v.minor < other.minor ? -1 : 1)                   [C03 C08]
 //@   ensures patch: v.major == other.major && v.minor == other.minor && v.patch != other.patch ==> result == (v.patch < other.patch ? -1 : 1)   [C03 C08]
-//@   ensures prerelease: v.major == other.major && v.minor == other.minor && v.patch == other.patch && v.pseudo == nil && other.pseudo == nil ==> result == comparePrerelease(v.prerelease, other.prerelease)   [C03 C08]   // build metadata is not consulted
+//@   ensures prerelease: v.major == other.major && v.minor == other.minor && v.patch == other.patch ==> result == comparePrerelease(v.semverPrerelease(), other.semverPrerelease())   [C03 C08]   // build metadata is not consulted; a pseudo-version takes part with its SemVer spelling
 
 // ---- constructors: value xor error (C06); the fact is structural (untagged) because callers rely on it
 
